@@ -66,6 +66,16 @@ def generate(tier, rng):
                        net.frame_tcp(src4, dst4, 5, 80, 1, 0, 2), net.frame_tcp(src6, dst6, 5, 80, 1, 0, 2),
                        net.frame_udp(src4, dst4, 5, 53, gens.dns_query()), net.frame_udp(src6, dst6, 5, 22, b"SSH-2.0-x\r\n")]
         yield Script(cfg, fr, "address-scope")
+        # every application responder (a handler may rewrite the client information the lower layers answer from)
+        fr = []
+        for i, (name, p, t, u) in enumerate(gens.app_seeds()):
+            for v6 in (False, True):
+                s_, d_ = gens.addr_pair(v6)
+                if u:
+                    fr.append(net.frame_udp(s_, d_, 6000 + i, 3478, p))
+                if t:
+                    fr += gens.handshake(cfg.key, s_, d_, 6000 + i, 80, [p])
+        yield Script(cfg, fr, "application-replies")
         # protocols
         fr = []
         for proto in range(256):
